@@ -251,6 +251,83 @@ def force_reset_family(ns=(1, 3, 4)):
     return out
 
 
+def rollback_above_fork_family(ns=(4, 5, 7)):
+    """Reorganisations at which SEVERAL producers hold proposals above the fork point.
+    n producers: group S (2 or 3 of them) alternates on branch X above the fork point until each
+    of its members holds a proposal above it; the others (one of them faulty: it signs on both
+    branches and declares windows reaching back to the fork point) produced only at or below the
+    fork point.  Branch Y, built by the non-S producers alone, forks at height r and wins; it goes
+    on after the reorganisation (connected blocks), the faulty producer confirming everything above
+    the fork point, so that the LIB is next computed from a map in which the S entries were RESET
+    by rollbackStatusTo (they still count in calcLIB's two-thirds quantile)."""
+    out = []
+    for n in ns:
+        for ns_ in (2, 3):
+            if ns_ > n - 2:
+                continue
+            for r in (1, 2):
+                for narrow in (False, True):
+                    t = Tree()
+                    S = list(range(ns_))
+                    others = list(range(ns_, n))
+                    faulty = others[0]
+                    main = [0]
+                    # at or below the fork point: the others
+                    for i in range(r):
+                        main.append(t.mk(main[-1], others[i % len(others)]))
+                        t.ops.append(["D", 0, main[-1]])
+                    lpb_at_fork = dict(t.lpb)
+                    # one more block of an honest other producer above the fork point (it has seen X that far)
+                    if len(others) > 1:
+                        main.append(t.mk(main[-1], others[-1]))
+                        t.ops.append(["D", 0, main[-1]])
+                        lpb_other = dict(t.lpb)
+                    else:
+                        lpb_other = dict(t.lpb)
+                    # S alternates until every member holds a proposal above the fork point
+                    for i in range(2 * ns_ + 1):
+                        main.append(t.mk(main[-1], S[i % ns_]))
+                        t.ops.append(["D", 0, main[-1]])
+                    xlen = len(main) - 1
+                    # branch Y from height r
+                    t.lpb = dict(lpb_other)
+                    tip = main[r]
+                    no = r
+                    k = 0
+                    while no < xlen + 2 * n + 2:
+                        no += 1
+                        bp = others[k % len(others)] if len(others) > 1 and k % 2 == 1 else faulty
+                        if len(others) > 2 and k % 2 == 1:
+                            bp = others[1 + (k // 2) % (len(others) - 1)]
+                        k += 1
+                        if bp == faulty:
+                            conf = 1 if (narrow and no <= xlen + 1) else no - r
+                            tip = t.mk(tip, bp, conf, track=False)
+                        else:
+                            tip = t.mk(tip, bp)
+                        t.ops.append(["D", 0, tip])
+                    t.ops.append(["S", 0])
+                    out.append({"n": n, "nodes": 1, "self": [-1], "ops": t.ops,
+                                "shape": "reorg with %d producers holding proposals above the fork point %d, n=%d%s"
+                                         % (ns_, r, n, ", narrow windows before the switch" if narrow else "")})
+    # the shape of the seeded demo: X = 1C 2D 3A 4B 5A, Y from block 1 = 2'C 3'C 4'D 5'C 6'D (+ 7'C 8'D)
+    t = Tree()
+    A, B, C, D = 0, 1, 2, 3
+    main = [0]
+    for bp in (C, D, A, B, A):
+        main.append(t.mk(main[-1], bp))
+        t.ops.append(["D", 0, main[-1]])
+    t.lpb = {C: 1, D: 2}
+    tip, no = main[1], 1
+    for bp in (C, C, D, C, D, C, D):
+        no += 1
+        tip = t.mk(tip, bp, no - 1, track=False) if bp == C else t.mk(tip, bp)
+        t.ops.append(["D", 0, tip])
+    t.ops.append(["S", 0])
+    out.append({"n": 4, "nodes": 1, "self": [-1], "ops": t.ops, "shape": "reorg at block 1, A and B hold proposals above it (demo shape)"})
+    return out
+
+
 def crash_scenario(rng, n, byz=0.0):
     """Fork histories in which every delivery that triggers a reorganisation crashes inside
     reorg.swapChain at stop point 2 (marker written) or 3 (chain mapping and status swapped, marker
@@ -789,6 +866,7 @@ def generate(rng, quick):
         sc.append(forks(rng, n, rng.randrange(2, 6), byz=0.3, restart=rng.choice(["none", "mixed", "shadow"])))
     sc += abandoned_reorg_sweep(4) + ([] if quick else abandoned_reorg_sweep(3))
     sc += force_reset_family((1, 3, 4) if quick else (1, 2, 3, 4, 5, 7))
+    sc += rollback_above_fork_family((4, 5) if quick else (4, 5, 6, 7))
     for _ in range(6 * k):
         sc.append(fail_scenario(rng, rng.choice([1, 2, 3, 4, 4, 5]), byz=rng.choice([0.0, 0.0, 0.3]), restart=rng.random() < 0.5))
     for _ in range(5 * k):
